@@ -78,33 +78,33 @@ pub enum Comp {
     Bgzf,
 }
 impl Comp {
-    fn s(self) -> &'static str {
+    pub fn s(self) -> &'static str {
         match self {
             Comp::Plain => "plain",
             Comp::Bgzf => "bgzf",
         }
     }
 }
-fn acm(c: Comp) -> Option<ACm> {
+pub fn acm(c: Comp) -> Option<ACm> {
     match c {
         Comp::Plain => None,
         Comp::Bgzf => Some(ACm::Bgzf),
     }
 }
-fn vcm(c: Comp) -> Option<VCm> {
+pub fn vcm(c: Comp) -> Option<VCm> {
     match c {
         Comp::Plain => None,
         Comp::Bgzf => Some(VCm::Bgzf),
     }
 }
-fn afmt_s(f: AFmt) -> &'static str {
+pub fn afmt_s(f: AFmt) -> &'static str {
     match f {
         AFmt::Sam => "sam",
         AFmt::Bam => "bam",
         AFmt::Cram => "cram",
     }
 }
-fn vfmt_s(f: VFmt) -> &'static str {
+pub fn vfmt_s(f: VFmt) -> &'static str {
     match f {
         VFmt::Vcf => "vcf",
         VFmt::Bcf => "bcf",
@@ -130,7 +130,7 @@ fn reader_for(stream: &[u8], k: usize) -> SchedReader {
 
 /// What flate2's `MultiGzDecoder` delivers from `window`: up to `want` bytes, then the error class
 /// it raises when asked for more (`None`: clean end, `Ok(0)`).
-fn observe_inflate(window: &[u8], want: usize) -> (Vec<u8>, Option<&'static str>) {
+pub fn observe_inflate(window: &[u8], want: usize) -> (Vec<u8>, Option<&'static str>) {
     let mut d = flate2::bufread::MultiGzDecoder::new(window);
     let mut out = vec![0u8; want];
     let mut got = 0;
@@ -153,7 +153,7 @@ fn observe_inflate(window: &[u8], want: usize) -> (Vec<u8>, Option<&'static str>
 
 /// Harness's own view of a byte stream: is it a sequence of BGZF members (then the inflated
 /// payload), and which magic number does the payload start with.
-fn sniff(stream: &[u8]) -> (Comp, Vec<u8>) {
+pub fn sniff(stream: &[u8]) -> (Comp, Vec<u8>) {
     if stream.len() >= 2 && stream[0] == 0x1f && stream[1] == 0x8b {
         if let Ok(ms) = split_members(stream) {
             let mut out = vec![];
@@ -171,7 +171,7 @@ fn sniff(stream: &[u8]) -> (Comp, Vec<u8>) {
     }
     (Comp::Plain, stream.to_vec())
 }
-fn sniff_a(stream: &[u8]) -> (&'static str, Comp) {
+pub fn sniff_a(stream: &[u8]) -> (&'static str, Comp) {
     let (c, p) = sniff(stream);
     let f = if p.starts_with(b"BAM\x01") {
         "bam"
@@ -182,7 +182,7 @@ fn sniff_a(stream: &[u8]) -> (&'static str, Comp) {
     };
     (f, c)
 }
-fn sniff_v(stream: &[u8]) -> (&'static str, Comp) {
+pub fn sniff_v(stream: &[u8]) -> (&'static str, Comp) {
     let (c, p) = sniff(stream);
     let f = if p.starts_with(b"BCF\x02") {
         "bcf"
@@ -233,17 +233,17 @@ pub struct ADoc {
 const NREF: usize = 2;
 const REF_LEN: usize = 2000;
 
-fn ref_seq(i: usize) -> Vec<u8> {
+pub fn ref_seq(i: usize) -> Vec<u8> {
     (0..REF_LEN).map(|j| b"ACGT"[(j * 7 + j / 3 + i * 5 + (j * j) % 11) % 4]).collect()
 }
-fn repository() -> fasta::Repository {
+pub fn repository() -> fasta::Repository {
     let recs: Vec<fasta::Record> = (0..NREF)
         .map(|i| fasta::Record::new(fasta::record::Definition::new(format!("sq{i}"), None), fasta::record::Sequence::from(ref_seq(i))))
         .collect();
     fasta::Repository::new(recs)
 }
 
-fn a_header(hkind: u8) -> sam::Header {
+pub fn a_header(hkind: u8) -> sam::Header {
     use sam::header::record::value::{
         map::{self, header::Version, Program, ReadGroup, ReferenceSequence},
         Map,
@@ -290,7 +290,7 @@ fn char_of(k: Kind) -> char {
     }
 }
 
-fn to_record_buf(r: &ARec) -> RecordBuf {
+pub fn to_record_buf(r: &ARec) -> RecordBuf {
     let mut b = RecordBuf::builder().set_flags(Flags::from(r.flags)).set_template_length(r.tlen);
     if let Some(n) = &r.name {
         b = b.set_name(n.clone());
@@ -355,7 +355,7 @@ fn int_value(n: i64) -> BValue {
 }
 
 /// Field-by-field rendering through the `sam::alignment::Record` trait (harness's own code).
-fn render_a(header: &sam::Header, r: &dyn sam::alignment::Record) -> std::io::Result<ARec> {
+pub fn render_a(header: &sam::Header, r: &dyn sam::alignment::Record) -> std::io::Result<ARec> {
     let mut o = ARec { name: r.name().map(|n| n.to_vec()), flags: u16::from(r.flags()?), ..Default::default() };
     o.rid = r.reference_sequence_id(header).transpose()?;
     o.pos = r.alignment_start().transpose()?.map(usize::from);
@@ -395,7 +395,7 @@ fn render_a(header: &sam::Header, r: &dyn sam::alignment::Record) -> std::io::Re
     Ok(o)
 }
 
-fn show_arec(r: &ARec) -> String {
+pub fn show_arec(r: &ARec) -> String {
     let cig: String = r.cigar.iter().map(|(c, n)| format!("{n}{c}")).collect();
     let aux: Vec<String> = r.aux.iter().map(|(t, v)| format!("{}{}:{:?}", t[0] as char, t[1] as char, v)).collect();
     format!(
@@ -795,7 +795,7 @@ fn ftext(bits: u32) -> &'static str {
     FLOATS.iter().copied().find(|s| fbits(s) == bits).unwrap()
 }
 
-fn v_header_text(d: &VDoc) -> String {
+pub fn v_header_text(d: &VDoc) -> String {
     let mut s = format!("##fileformat=VCFv{}.{}\n", d.version.0, d.version.1);
     for (id, n, t) in [("DP", "1", "Integer"), ("AF", "A", "Float"), ("DB", "0", "Flag"), ("AA", "1", "String"), ("AC", "A", "Integer"), ("XS", ".", "String"), ("XC", "1", "Character"), ("XI", ".", "Integer"), ("XF", "2", "Float")] {
         s += &format!("##INFO=<ID={id},Number={n},Type={t},Description=\"{id}\">\n");
@@ -1016,7 +1016,7 @@ pub fn gen_vdoc(rng: &mut Rng) -> VDoc {
 }
 
 /// header + records as the VCF reader parses the harness's own text rendering of the document
-fn v_parse(d: &VDoc) -> std::io::Result<(vcf::Header, Vec<vcf::variant::RecordBuf>)> {
+pub fn v_parse(d: &VDoc) -> std::io::Result<(vcf::Header, Vec<vcf::variant::RecordBuf>)> {
     let mut text = v_header_text(d);
     for r in &d.recs {
         text += &vrec_text(r);
@@ -1039,7 +1039,7 @@ fn v_parse(d: &VDoc) -> std::io::Result<(vcf::Header, Vec<vcf::variant::RecordBu
 }
 
 /// Field-by-field rendering through the `vcf::variant::Record` trait (harness's own code).
-fn render_v(header: &vcf::Header, r: &dyn vcf::variant::Record) -> std::io::Result<VRec> {
+pub fn render_v(header: &vcf::Header, r: &dyn vcf::variant::Record) -> std::io::Result<VRec> {
     use vcf::variant::record::info::field::{value::Array as IArray, Value as IValue};
     use vcf::variant::record::samples::series::{value::genotype::Phasing, value::Array as SArray, Value as SValue};
     let mut o = VRec { chrom: r.reference_sequence_name(header)?.to_string(), ..Default::default() };
@@ -1134,7 +1134,7 @@ fn render_v(header: &vcf::Header, r: &dyn vcf::variant::Record) -> std::io::Resu
     Ok(o)
 }
 
-fn show_vrec(r: &VRec) -> String {
+pub fn show_vrec(r: &VRec) -> String {
     format!("{r:?}")
 }
 
@@ -1390,7 +1390,7 @@ const V_KINDS: [(VFmt, Comp); 4] = [(VFmt::Vcf, Comp::Plain), (VFmt::Vcf, Comp::
 
 /// documented normal forms: BAM stores bases in a 4-bit alphabet (upper case); CRAM stores the
 /// alignment as features against the reference (`=`/`X` come back as `M`) and upper-case bases
-fn a_nf(f: AFmt, r: &ARec) -> ARec {
+pub fn a_nf(f: AFmt, r: &ARec) -> ARec {
     let mut r = r.clone();
     match f {
         AFmt::Sam => {}
@@ -1919,7 +1919,7 @@ fn writer_dispatch(ctx: &mut Ctx) {
 // ------------------------------------------------------------------ hand-written windows (correspondence only)
 
 /// Streams that no writer produces but that visit every branch of the two detectors.
-fn window_corpus() -> Vec<(&'static str, Vec<u8>)> {
+pub fn window_corpus() -> Vec<(&'static str, Vec<u8>)> {
     use super::c01::{make_member, stored_member, EOF};
     let bam_raw = a_write(Some(AFmt::Bam), Some(Comp::Plain), &a_header(2), &[]).unwrap();
     let bcf_raw = {
@@ -2029,7 +2029,7 @@ fn corpus(ctx: &mut Ctx) {
 }
 
 /// Boundary documents, always run first (replayable as `acorpus <i>` / `vcorpus <i>`).
-fn a_corpus_doc(i: usize) -> Option<(ADoc, bool)> {
+pub fn a_corpus_doc(i: usize) -> Option<(ADoc, bool)> {
     let unmapped = |name: &[u8]| ARec { name: Some(name.to_vec()), flags: 4, seq: b"ACGT".to_vec(), qual: vec![30; 4], ..Default::default() };
     let mapped = |name: &[u8]| ARec { name: Some(name.to_vec()), rid: Some(0), pos: Some(10), mapq: Some(20), cigar: vec![('M', 4)], seq: ref_seq(0)[9..13].to_vec(), qual: vec![30; 4], ..Default::default() };
     Some(match i {
@@ -2058,7 +2058,7 @@ fn a_corpus_doc(i: usize) -> Option<(ADoc, bool)> {
     })
 }
 
-fn v_corpus_doc(i: usize) -> Option<VDoc> {
+pub fn v_corpus_doc(i: usize) -> Option<VDoc> {
     let rec = |pos: usize| VRec { chrom: "sq0".into(), pos, refb: "A".into(), alts: vec!["C".into()], filters: Some(vec!["PASS".into()]), ..Default::default() };
     Some(match i {
         0 => VDoc { extra_filters: 0, version: (4, 3), nsamples: 0, recs: vec![] }, // header only
@@ -2138,6 +2138,7 @@ fn run_vdoc(ctx: &mut Ctx, sub: u64) {
 
 pub fn run(ctx: &mut Ctx) {
     if let Some(case) = ctx.replay_only.clone() {
+        if super::c20_more::replay(ctx, &case) { return; }
         let arg: u64 = case.get(1).and_then(|s| s.parse().ok()).unwrap_or(0);
         match case.first().map(|s| s.as_str()) {
             Some("adoc") => run_adoc(ctx, arg),
@@ -2206,6 +2207,7 @@ pub fn run(ctx: &mut Ctx) {
         run_adoc(ctx, sub_of(ctx.seed, 1, it));
         run_vdoc(ctx, sub_of(ctx.seed, 2, it));
     }
+    super::c20_more::run(ctx);
     ctx.sample(|| "c20 adet - - 1f8b08040000000000ff0600424302001b00 - - fc   (the empty SAM.gz: a lone EOF marker)".into());
     ctx.sample(|| "c20 adet - - 4352414d310934092a093009323535092a09 - invalid-input fc   (header-less SAM, first read CRAM1)".into());
 }
